@@ -3,6 +3,8 @@ ENGINES = [
      'kind_free_text': 'rustc_private driver dumping type-checked MIR (resolved callees, field names, evaluated constants, statics, promoted bodies) as JSON; injected with RUSTC_WORKSPACE_WRAPPER under cargo +nightly check on the current working tree'},
     {'name': 'E1 call graph + effects', 'path': 'analysis/facts.py analysis/effects.py', 'serves_properties': ['C16', 'C17'],
      'kind_free_text': 'whole-crate call graph (fn items as values and closures are edges, CHA for unresolved trait calls) and transitive effect sets'},
+    {'name': 'E3 bit-precise evaluator', 'path': 'analysis/bits.py', 'serves_properties': ['C12'],
+     'kind_free_text': 'integers as vectors of bits, each bit a truth table over <= 8 named input bits; byte arrays at constant offsets; loop-free code only'},
     {'name': 'E2 event automata', 'path': 'analysis/cfg.py analysis/pkt.py', 'serves_properties': ['C03', 'C08', 'C10', 'C11'],
      'kind_free_text': 'forward data-flow of (automaton state, known enum variants) over the MIR CFG with per-callee summaries; keeps Ok/Err outcomes apart until the ? has branched'},
 ]
@@ -75,5 +77,15 @@ CHECKS['C11'] = {
              'the count == 0 -> None test on the current header count and rrs_left is re-initialised only under offset.is_none(); (c) advances and rrs_left decrements are paired on all paths (termination measure). '
              'Which records are yielded/survive for every deletion pattern is a run-time sequence property and is NOT decided.'),
     'note': 'Structural clauses only. Trusted: rustc MIR, rule engines.',
+}
+CHECKS['C12'] = {
+    'engine': 'E3 bit-precise evaluator', 'level': 'proof',
+    'technique': 'bit-precise abstract evaluation of loop-free MIR: exact Boolean function of every header bit, compared with the RFC 1035 spec table',
+    'design_ref': 'DESIGN.md section 4, C12',
+    'text': ('Proof for all 2^16 header words x all argument values: for set_flags, set_opcode, set_rcode, set_response (both), set_tid and the four count setters the exact Boolean function of each of the 96 header bits '
+             'after the call is computed from the MIR and equals the specification (own field <- argument bits, every other bit unchanged, upper half of the set_flags argument unused); for tid, flags, opcode, rcode, '
+             'is_response (both) and the count getters each result bit equals the specified header bit and the header is untouched; getter(setter(a)) is evaluated directly as well. '
+             'Every bit is an exact function of <= 2 input bits, so truth-table equality covers every input; a bit the evaluator cannot track is reported, never passed.'),
+    'note': 'Trusted: the transcription of RFC 1035 4.1.1 in rules/C12.py, the transfer functions of analysis/bits.py, rustc MIR. Panics on a missing packet (packet() on None) are outside this property.',
 }
 NOT_APPLICABLE = {('C%02d' % i): PENDING for i in range(1, 19) if ('C%02d' % i) not in CHECKS}
